@@ -141,19 +141,19 @@ package routing
 //@   ensures [C11.lag-buffer,C06.lag-buffer] len(r) == int(timeLag) && forall(j, 0, int(timeLag), r[j] == ite(inflow.len + j < int(timeLag), old(lagged[inflow.len + j]), inflow.at(inflow.len + j - int(timeLag))))
 //@   ensures [C11.lag-same-buffer,C06.lag-same-buffer] r == lagged
 //@   ensures [C04.shape] len(r) == len(lagged)
-//@   loop 0 invariant [C11.lag-loop,C06.lag-loop] 0 <= i && i <= min(lagSteps, outflow.len) && lagSteps == int(timeLag) && lagSteps > 0
-//@   loop 0 invariant [C11.lag-loop,C06.lag-loop] forall(t, 0, i, outflow.at(t) == lagged[t])
-//@   loop 1 invariant [C11.lag-loop,C06.lag-loop] lagSteps <= i && (i <= outflow.len || i == lagSteps) && lagSteps == int(timeLag)
-//@   loop 1 invariant [C11.lag-loop,C06.lag-loop] forall(t, 0, min(lagSteps, outflow.len), outflow.at(t) == lagged[t])
-//@   loop 1 invariant [C11.lag-loop,C06.lag-loop] forall(t, lagSteps, i, outflow.at(t) == inflow.at(t - lagSteps))
-//@   loop 2 invariant [C11.lag-loop,C06.lag-loop] inflow.len <= i && i <= lagSteps
-//@   loop 2 invariant [C11.lag-loop,C06.lag-loop] forall(j, 0, i - inflow.len, lagged[j] == old(lagged[j + inflow.len]))
-//@   loop 2 invariant [C11.lag-loop,C06.lag-loop] forall(j, i - inflow.len, lagSteps, lagged[j] == old(lagged[j]))
-//@   loop 3 invariant [C11.lag-loop,C06.lag-loop] 0 <= i && i <= inflow.len
-//@   loop 3 invariant [C11.lag-loop,C06.lag-loop] forall(j, 0, lagSteps - inflow.len, lagged[j] == old(lagged[j + inflow.len]))
-//@   loop 3 invariant [C11.lag-loop,C06.lag-loop] forall(j, 0, i, lagged[lagSteps - inflow.len + j] == inflow.at(j))
-//@   loop 4 invariant [C11.lag-loop,C06.lag-loop] 0 <= i && i <= lagSteps
-//@   loop 4 invariant [C11.lag-loop,C06.lag-loop] forall(j, 0, i, lagged[j] == inflow.at(inflow.len - lagSteps + j))
+//@   loop 0 invariant [C11.lag-loop,C06.lag-loop,C04.lag-loop] 0 <= i && i <= min(lagSteps, outflow.len) && lagSteps == int(timeLag) && lagSteps > 0
+//@   loop 0 invariant [C11.lag-loop,C06.lag-loop,C04.lag-loop] forall(t, 0, i, outflow.at(t) == lagged[t])
+//@   loop 1 invariant [C11.lag-loop,C06.lag-loop,C04.lag-loop] lagSteps <= i && (i <= outflow.len || i == lagSteps) && lagSteps == int(timeLag)
+//@   loop 1 invariant [C11.lag-loop,C06.lag-loop,C04.lag-loop] forall(t, 0, min(lagSteps, outflow.len), outflow.at(t) == lagged[t])
+//@   loop 1 invariant [C11.lag-loop,C06.lag-loop,C04.lag-loop] forall(t, lagSteps, i, outflow.at(t) == inflow.at(t - lagSteps))
+//@   loop 2 invariant [C11.lag-loop,C06.lag-loop,C04.lag-loop] inflow.len <= i && i <= lagSteps
+//@   loop 2 invariant [C11.lag-loop,C06.lag-loop,C04.lag-loop] forall(j, 0, i - inflow.len, lagged[j] == old(lagged[j + inflow.len]))
+//@   loop 2 invariant [C11.lag-loop,C06.lag-loop,C04.lag-loop] forall(j, i - inflow.len, lagSteps, lagged[j] == old(lagged[j]))
+//@   loop 3 invariant [C11.lag-loop,C06.lag-loop,C04.lag-loop] 0 <= i && i <= inflow.len
+//@   loop 3 invariant [C11.lag-loop,C06.lag-loop,C04.lag-loop] forall(j, 0, lagSteps - inflow.len, lagged[j] == old(lagged[j + inflow.len]))
+//@   loop 3 invariant [C11.lag-loop,C06.lag-loop,C04.lag-loop] forall(j, 0, i, lagged[lagSteps - inflow.len + j] == inflow.at(j))
+//@   loop 4 invariant [C11.lag-loop,C06.lag-loop,C04.lag-loop] 0 <= i && i <= lagSteps
+//@   loop 4 invariant [C11.lag-loop,C06.lag-loop,C04.lag-loop] forall(j, 0, i, lagged[j] == inflow.at(inflow.len - lagSteps + j))
 
 // ---- C11: storage routing ----
 
